@@ -8,7 +8,7 @@ From Coq Require Import String ZArith List Bool Lia.
 From Tangelo Require Import Linq.GateModel Linq.CircuitModel Linq.ScanLemmas.
 Import ListNotations.
 Open Scope list_scope.
-Open Scope Z_scope.
+Local Open Scope Z_scope.
 
 Fixpoint zmax0 (l : list Z) : Z := match l with [] => 0 | x :: r => Z.max x (zmax0 r) end.
 
